@@ -50,21 +50,20 @@ f4(20, 'open', 'a function literal or macro that refers to a variable of an impo
 f4(21, 'open', 'labeled break/continue that leaves or continues an outer loop from an inner breakable statement is not implemented (upstream issue 83): the emitter panics "internal error: not implemented" instead of returning an error',
    prog('package main\n\nfunc main() {\n\tL: for { for { continue L } }\n}\n'),
    scope='panic:compiler.(*emitter).emitNodes:scriggo: internal error: not implemented')
-f4(22, 'open', 'for-range with a left-hand side that is not an identifier (valid Go: for x[0] = range a {}) makes the type checker panic "internal error: unexpected"; needs general assignment in range clauses',
-   prog('package main\n\nfunc main() {\n\ta := []int{1}\n\tx := []int{0, 0}\n\tfor x[0] = range a {\n\t}\n}\n'),
-   scope='panic:compiler.(*typechecker).obsoleteForRangeAssign:scriggo: internal error: unexpected')
+f4(22, 'fixed', 'for-range with a left-hand side that is not an identifier (for x[0] = range a {}) made the type checker panic "internal error: unexpected"; since C03-range-assignment-target it is an ordinary error',
+   prog('package main\n\nfunc main() {\n\ta := []int{1}\n\tx := []int{0, 0}\n\tfor x[0] = range a {\n\t}\n}\n'), 'C03-range-assignment-target.diff')
 f4(23, 'open', 'the type checker instantiates a zero value of every declared variable type: var b [1<<32]int makes Build allocate 32 GiB (upstream issue 545); under the 8 GiB address-space limit of the worker the process dies with "out of memory", without it the build thrashes for minutes',
    prog('package main\n\nconst LARGE = ^uint(0)>>32 + 1\n\nvar b [LARGE]int\n\nfunc main() {\n\t_ = b[0]\n}\n'),
    scope='crash:compiler/types.(*Types).Zero:runtime: out of memory: cannot allocate N-byte block (N in use)')
 f4(24, 'fixed', '"cannot find package" for an import queued next to a sibling import: nil pointer dereference in ParseProgram', prog('package main\n\nimport aNewName "named_imports.dir/A"\nimport . "named_imports.dir/b"\n\nfunc main() {\n\taNewName.A()\n\tB()\n}\n', extra=[('a/a.go', 'package a\n\nfunc A() {\n\n}\n'), ('b/b.go', 'package b\n\nfunc B() {\n\n}\n'), ('go.mod', 'module named_imports.dir\n\ngo 1.16\n')]), 'C04-program-missing-package-importer.diff')
-f4(25, 'fixed', 'for nil { }: nil pointer dereference in the type checker', prog('package main\n\nfunc main() {\n\tfor nil { }\n}\n'), 'C04-checker-for-nil-condition.diff')
+f4(25, 'fixed', 'for nil { }: nil pointer dereference in the type checker', prog('package main\n\nfunc main() {\n\tfor nil { }\n}\n'), 'C03-nil-for-condition.diff')
 f4(26, 'fixed', 'return nested in a block at the top level of a template: nil pointer dereference in checkReturn', tmpl('a{% if true %}{% return %}{% end %}b'), 'C04-checker-return-outside-function.diff')
-f4(27, 'fixed', 'complex(nil, 1): nil pointer dereference in convert', tmpl('{{ complex(nil, 1) }}'), 'C04-checker-complex-builtins-nil.diff')
-f4(28, 'fixed', 'real(nil): nil pointer dereference in checkBuiltinCall', tmpl('{{ real(nil) }}'), 'C04-checker-complex-builtins-nil.diff')
-f4(29, 'fixed', 'type switch guard whose left side is not a name: interface conversion panic in the type checker', prog('package main\n\nfunc main() {\n\tswitch "a"+u := interface{}(2).(type) {\n\tcase int:\n\t}\n}\n'), 'C04-checker-type-switch-non-name.diff')
+f4(27, 'fixed', 'complex(nil, 1): nil pointer dereference in convert', tmpl('{{ complex(nil, 1) }}'), 'C03-nil-builtin-arguments.diff')
+f4(28, 'fixed', 'real(nil): nil pointer dereference in checkBuiltinCall', tmpl('{{ real(nil) }}'), 'C03-nil-builtin-arguments.diff')
+f4(29, 'fixed', 'type switch guard whose left side is not a name: interface conversion panic in the type checker', prog('package main\n\nfunc main() {\n\tswitch "a"+u := interface{}(2).(type) {\n\tcase int:\n\t}\n}\n'), 'C03-type-switch-non-identifier.diff')
 f4(30, 'fixed', '_ = conversion(x), y is checked as a multi-value call: the emitter panics "reflect: NumOut of non-func type"', tmpl('{%%\nconst s5 markdown = "a"\n_ = markdown(s5),d\n%%}'), 'C04-checker-unbalanced-assignment-call.diff')
 f4(31, 'fixed', '} after pending labels inside {%% %%}: index out of range [-1] in (*parsing).parent', tmpl('{%% A: B:}}%%}'), 'C04-parser-right-brace-after-labels.diff')
-f4(32, 'fixed', 'nil <- c: nil pointer dereference in the type checker', prog('package main\n\nfunc main() {\n\tc := make(chan int)\n\tnil<-c\n}\n'), 'C04-checker-send-on-nil.diff')
+f4(32, 'fixed', 'nil <- c: nil pointer dereference in the type checker', prog('package main\n\nfunc main() {\n\tc := make(chan int)\n\tnil<-c\n}\n'), 'C03-send-to-nil.diff')
 f4(33, 'fixed', '.(type) nested in an expression: checker panics "unexpected: <nil> (type <nil>)"', prog('package main\n\nfunc main() {\n\tvar x interface{} = 1\n\tswitch xx := x.(type).(type) {\n\tdefault:\n\t\t_ = xx\n\t}\n}\n'), 'C04-checker-type-guard-outside-switch.diff')
 f4(34, 'fixed', '_, a := nil, 2: nil pointer dereference in the emitter (assignValuesToAddresses)', prog('package main\n\nfunc main() {\n\t_, a := nil, 2\n\t_ = a\n}\n'), 'C04-checker-blank-declared-nil.diff')
 f4(35, 'fixed', 'array type larger than the address space: reflect.ArrayOf panic reaches the host', prog('package main\n\nfunc main() {\n\tvar a ' + '[10] ' * 27 + 'int\n\tconst ca = len(a)\n}\n'), 'C04-checker-array-larger-than-address-space.diff')
